@@ -11,13 +11,18 @@ What is explicit (never hidden):
                `wrapAggregate` ran for it (it reads the clock through `Cache.Get/Set`);
 * `order`    — the order in which the worker group delivers the batches to
                `wrapAggregate` (C14: every accepted job is delivered exactly once, in
-               any order), a permutation of `0 … #batches-1`;
+               any order): a permutation of `0 … k-1`, where `k` is the number of batches
+               `RunJobs` submitted.  `k = #batches` while the caller's context is alive;
+               once `ctx.Err() != nil`, `WorkerGroup.Do` refuses and `RunJobs` stops
+               submitting, so a call whose context is done may have run only a prefix
+               (`k < #batches`, including `k = 0`);
 * `expire`   — `RunnerConfig.CacheExpire` in ns (`0` = entries never expire; the code
                treats every value `≤ 0` that way).
 
-Not modelled: a cancelled context / a stopped worker group (then `RunJobs` submits
-only a prefix of the batches — C14's business), and the cache's garbage collector
-(`ClearExpired` only deletes entries that `Get` already treats as absent).
+What the pipeline does with a context that is done (typically: answer `ctx.Err()`)
+is part of `BatchOut` like any other failure.  Not modelled: a worker group stopped
+during a call (C14's business), and the cache's garbage collector (`ClearExpired`
+only deletes entries that `Get` already treats as absent).
 -/
 namespace AutoVerif.C13
 
@@ -87,6 +92,19 @@ def unflattenAux {α} (size : Nat) : Nat → List α → List (List α)
 /-- `for i := 0; i < len(b); i += size { groups = append(groups, b[i:min(i+size,len(b))]) }`
 (for `size ≥ 1`; Go loops forever on `size = 0`, the model then returns `len(b)` empty groups) -/
 def unflatten {α} (size : Nat) (l : List α) : List (List α) := unflattenAux size l.length l
+
+/-- the Go loop of `Unflatten` literally, with its three decision expressions as parameters
+(`more i n` = `i < len(b)`, `end_ i size` = `i + size`, `clamp j n` = `j > len(b)`); Props/C13 shows
+that with the expressions regenerated from the source it is `unflatten` -/
+def unflattenLoop {α} (more : Nat → Nat → Bool) (end_ : Nat → Nat → Nat) (clamp : Nat → Nat → Bool)
+    (size : Nat) (b : List α) : Nat → Nat → List (List α)
+  | _, 0 => []
+  | i, fuel + 1 =>
+    if more i b.length then
+      let j := end_ i size
+      let j := if clamp j b.length then b.length else j
+      (b.drop i).take (j - i) :: unflattenLoop more end_ clamp size b (i + size) fuel   -- `b[i:j]`; `i += size`
+    else []
 
 /-- `WorkerBatchLimit` (checked against the regenerated constant in Props) -/
 def workerBatchLimit : Nat := 10
@@ -199,14 +217,15 @@ def outOf : List Nat → List (List Payload × BatchOut) → Nat → BatchOut
   | _, _, _ => { doneAt := 0, res := none }
 
 /-- what the model returns for a call that starts with cache `c`, given the batches the pipeline was
-seen to be called with (`ds`, completion order); `none` when these are not the predicted batches,
-each exactly once -/
-def modelCall (expire : Nat) (c : Cache) (now : Nat) (ps : List Payload) (ds : List (List Payload × BatchOut)) :
-    Option Ret :=
+seen to be called with (`ds`, completion order) and whether the caller's context was done when the
+call returned; `none` when `ds` are not exactly the first `k` predicted batches, each once — with
+`k = #batches` unless the context was done -/
+def modelCall (expire : Nat) (c : Cache) (now : Nat) (ps : List Payload) (ds : List (List Payload × BatchOut))
+    (cancelled : Bool) : Option Ret :=
   match orderOf (batches c now ps) [] ds with
   | none => none
   | some order =>
-    if order.length = (batches c now ps).length
+    if (decide (order.length = (batches c now ps).length) || cancelled) && order.all (fun i => decide (i < order.length))
     then some (parallelCheck expire c now ps (outOf order ds) order).2 else none
 
 end AutoVerif.C13
